@@ -17,6 +17,7 @@ import OV.Drivers.Loop
 * `C14 imports <sorted 0|1> <existing dom=ver;…|-> <iter dom[=ver],… |->` → `<dom=ver;…>`  (`~` stands for the empty domain)
 * `C14 header <graph imports dom=ver;…|-> <funcs dom:ver:std|…  (std `-` = none) |-> <opset_version|-> <ir_version|-> <latest> <opset=ir;…> <maxIr>`
                                                                      → `<dom=ver;…> ir=<n>`   (`~` = empty domain)
+* `C14 fresh <model value names csv|-> <k>`                                → `<new names csv>`  (`apply_to_model` naming `k` new values)
 * `C14 castable <fn1 consts csv|-> <fn2 consts csv|-> <arg>`        → `castlike=<0|1> resets=<0|1>`
 -/
 namespace OV.Drivers.C14
@@ -245,6 +246,8 @@ def handle (args : List String) : String :=
       | _ => none)
     let r := modelHeader (parseImps gi) funcs okw.toNat? ikw.toNat? (latest.toNat?.getD 0) tbl (maxIr.toNat?.getD 0)
     ";".intercalate (r.1.map (fun p => s!"{if p.1 == "" then "~" else p.1}={p.2}")) ++ s!" ir={r.2}"
+  | ["fresh", names, k] =>
+    showCsv (applyNames true [] (csv names) (k.toNat?.getD 0)).1
   | ["castable", c1, c2, arg] =>
     let resets := OV.Gen.C14Stash.converterFacts.resetFields.contains "_castable"
     s!"castlike={b01 (insertsCastLike (castableAfter resets (csv c1) (csv c2)) arg)} resets={b01 resets}"
